@@ -249,8 +249,10 @@ class Body:
                     cv = "1" if c["bool"] else "0"
                 elif "int" in c:
                     cv = c["int"]
+            if cv is None:
+                cv = self._known_discriminant(t["d"])
             if cv is not None:
-                # constant condition (e.g. tracing's `if false`): only the matching arm is feasible
+                # constant condition (e.g. tracing's `if false`, the match on a freshly built enum value): only the matching arm is feasible
                 hit = [(tb, v) for v, tb in t["arms"] if v == cv]
                 out.append(hit[0] if hit else (t["otherwise"], "otherwise"))
             else:
@@ -263,6 +265,49 @@ class Body:
         # return, unreachable, resume, terminate, cordrop, tailcall, asm: no normal successors
         self._succ[bb] = out
         return out
+
+    def _single_def_rv(self, l):
+        """The rvalue of the only definition of local l (None when it has several, or is defined by a call)."""
+        n, rv = 0, None
+        for b in self.blocks:
+            if b["cleanup"]:
+                continue
+            for st in b["stmts"]:
+                if st["k"] == "assign" and st["lhs"]["l"] == l and not st["lhs"]["p"]:
+                    n += 1
+                    rv = st["rv"]
+                elif st["k"] in ("assign", "setdiscr") and st["lhs"]["l"] == l and st["lhs"]["p"]:
+                    n += 2     # partially written: not a plain value
+            t = b["term"]
+            if t["k"] == "call" and t["dest"]["l"] == l:
+                n += 2
+        return rv if n == 1 else None
+
+    def _known_discriminant(self, o):
+        """`_d = discriminant(x); switchInt(_d)` where x (through moves) is one freshly built enum aggregate: its variant index."""
+        p = o.get("copy") or o.get("move")
+        if not p or p["p"]:
+            return None
+        rv = self._single_def_rv(p["l"])
+        if rv is None or "discr" not in rv or rv["discr"]["p"]:
+            return None
+        l = rv["discr"]["l"]
+        for _ in range(5):
+            if l in self.mut_borrowed():
+                return None
+            rv2 = self._single_def_rv(l)
+            if rv2 is None:
+                return None
+            if rv2.get("agg") == "adt" and rv2.get("vidx") is not None and rv2.get("variant"):
+                return str(rv2["vidx"])
+            if "use" in rv2:
+                pl = rv2["use"].get("move") or rv2["use"].get("copy")
+                if pl is None or pl["p"]:
+                    return None
+                l = pl["l"]
+                continue
+            return None
+        return None
 
     def _const_operand(self, o, hops=4):
         """Follow `_x = const c` single definitions so that `if false` style switches are recognised."""
@@ -579,6 +624,18 @@ class Body:
     def return_blocks(self):
         return [i for i in self.normal_blocks() if self.blocks[i]["term"]["k"] == "return"]
 
+    def _live_or_none(self):
+        """live_blocks(), or None while it is being computed (no recursion through expression resolution)."""
+        if getattr(self, "_live", None) is not None:
+            return self._live
+        if getattr(self, "_live_busy", False):
+            return None
+        self._live_busy = True
+        try:
+            return self.live_blocks()
+        finally:
+            self._live_busy = False
+
     def live_blocks(self):
         """Blocks reachable from entry on normal paths."""
         if getattr(self, "_live", None) is None:
@@ -655,10 +712,24 @@ class Body:
                         b0 = b0[1]
                     if e.get("n") is None and b0[0] == "agg" and b0[1].get("agg") == "tuple" and e["f"] < len(b0[2]):
                         base = b0[2][e["f"]]   # (a, b).0 == a
+                    elif (base[0] == "downcast" and base[1][0] == "agg" and base[1][1].get("agg") == "adt" and base[1][1].get("variant")
+                          and base[1][1].get("variant") == base[2] and isinstance(e["f"], int) and e["f"] < len(base[1][2])
+                          and len(base[1][1].get("fields") or []) == len(base[1][2])):
+                        base = base[1][2][e["f"]]   # (V(a, b) as V).0 == a
                     else:
                         base = ("field", base, e["n"] if e.get("n") is not None else e["f"])
                 elif "dc" in e:
-                    base = ("downcast", base, e["dc"] if e["dc"] is not None else e["v"])
+                    name = e["dc"] if e["dc"] is not None else e["v"]
+                    b0 = base
+                    n0 = 0
+                    while b0[0] == "phi" and len(b0) > 3 and n0 < 4:
+                        # `(x as V)` is only evaluated when x IS a V: alternatives built as another variant are not what is read here
+                        alts = [a for a in b0[3] if not (a[0] == "agg" and a[1].get("agg") == "adt" and a[1].get("variant") and a[1].get("variant") != name)]
+                        if len(alts) == len(b0[3]) or not alts:
+                            break
+                        b0 = alts[0] if len(alts) == 1 else ("phi", b0[1], b0[2], alts)
+                        n0 += 1
+                    base = ("downcast", b0, name)
                 elif "idx" in e:
                     base = ("index", base)
                 elif "cidx" in e:
@@ -679,6 +750,11 @@ class Body:
         if l in _seen or _depth > 60:
             return ("local", l, self.lname(l))
         ds = self.defs().get(l, [])
+        if len(ds) > 1:
+            # definitions in blocks no feasible path reaches (arms of a match on a value built on the spot, `if false`) define nothing
+            live = self._live_or_none()
+            if live is not None:
+                ds = [d for d in ds if d[1] in live] or ds
         if not ds:
             return ("local", l, self.lname(l))
         seen2 = _seen | {l}
